@@ -399,7 +399,11 @@ def run_checks(a):
             'real_components': list(E.real),
             'stub_components': list(E.stubs),
             'engine': E.name,
-            'violations_confirmed': confirmed,
+            # every unlisted signature; of the signatures covered by listed findings only the first 60 (there can
+            # be thousands of feature combinations), with the total
+            'violations_confirmed': [c for c in confirmed if not c['known']] +
+                                    [c for c in confirmed if c['known']][:60],
+            'signatures_covered_by_listed_findings': sum(1 for c in confirmed if c['known']),
         },
         'assumptions': list(getattr(E, 'assumptions', ())) + [
             'seeded sampling of schedules/faults: a clean batch is evidence, not proof',
